@@ -25,7 +25,12 @@ def ctor_cases(ctx):
     axes = [list(map(float, v)) for v in itertools.product([-1, 0, 1], repeat=3)]          # includes the zero vector
     axes += [[1e-300, 0, 0], [0, 1e-300, 1e-300], [1e300, 1e300, 0], [1e300, 0, -1e300], [5e-324, 0, 0], [1e-200, 1e-200, 0],
              [INF, 0, 0], [0, -INF, 1], [NAN, 0, 0], [1, NAN, 0], [0, 0, NAN], [INF, INF, INF], [1e154, 1e154, 1e154],
-             [3.0, 4.0, 0.0], [1e-9, 1.0, 0.0], [2.0, 0, 0], [0.5, 0.5, 0.5]]
+             [3.0, 4.0, 0.0], [1e-9, 1.0, 0.0], [2.0, 0, 0], [0.5, 0.5, 0.5],
+             [0.0, 0.0, -1e-200], [-3e-300, 1e-300, 2e-300], [1e200, -2e200, 1e200], [-1e300, 1e300, 0.5e300],
+             [1e-250, -2e-250, 1e-250], [-5e-324, 0.0, 0.0], [-1e160, 0.0, 1e159]]
+    for _ in range(ctx.pick(10, 60)):
+        e = rng.choice([-300, -250, -200, -170, 160, 200, 300])
+        axes.append([rng.uniform(-1, 1) * 10.0 ** e for _ in range(3)])
     axes += [[rng.gauss(0, 1) * 10 ** rng.randint(-5, 5) for _ in range(3)] for _ in range(ctx.pick(20, 200))]
     cases = []
     for ax in axes:
